@@ -110,7 +110,7 @@ def _observe(job):
 def run(tier: str) -> int:
     chk = Check("C17", tier, "model_checking")
     maxargs = 2 if tier == "quick" else 3
-    chk.rule = (f"cases = every point of spec/Resolve.tla: 96 settings x every argument list of length <= {maxargs} over 12 arguments "
+    chk.rule = (f"cases = every point of spec/Resolve.tla: 96 settings x every argument list of length <= {maxargs} over 13 arguments "
                 "(directories, files in different spellings, globs, a symlinked directory) on a 13-entry tree; quick executes every "
                 "second point (seeded offset), thorough all; non-trivial = point whose Must set is non-empty and differs from the unfiltered tree")
     chk.assumptions = ["the universe is one rich tree (sizes at and over the limit, excluded dirs, ignore file, four kinds of symlink)",
